@@ -303,6 +303,11 @@ def main(tier, rep):
     for ms in (1, 2):
         for other in (["ok"], ["fail"]):
             plans.append(("pc", [["bad"], other], ms, 2, "line", 3))
+    # quit() hands its connection back on two paths (its own clean-up and the context manager's): two preemptions next to a
+    # call that is in the middle of its exchange
+    for ms in (1, 2):
+        for other in (["ok"], ["quit"]):
+            plans.append(("pc", [["quit"], other], ms, 2, "line", 4))
     if tier == "thorough":
         for ms in (1, 2):
             for a, b in itertools.product(one, one):
